@@ -1,11 +1,19 @@
 use crate::framework::Cfg;
+pub mod c06;
+pub mod c07;
+pub mod c08;
 pub mod c12;
 pub mod c16;
+pub mod c20;
 
 pub fn dispatch(cfg: &Cfg) -> i32 {
     match cfg.prop.as_str() {
+        "C06" => c06::run(cfg),
+        "C07" => c07::run(cfg),
+        "C08" => c08::run(cfg),
         "C12" => c12::run(cfg),
         "C16" => c16::run(cfg),
+        "C20" => c20::run(cfg),
         p => {
             eprintln!("no check for property {p}");
             2
